@@ -227,6 +227,113 @@ def correspondence(rep, rng, cases, harness, driver, stats, n_mut):
     return mc[:20] + mcmds[:10] + mcmds[-10:]
 
 
+def has_slot_sx(t):
+    """template sexp (d_template form): does the principal/resource constraint mention the slot"""
+    return any(isinstance(c, list) and c and c[-1] == "slot" for c in (t[4], t[6]))
+
+
+def canon_set_json(j, already=False):
+    j = dict(j if already else canon_json(j))
+    j["templateLinks"] = sorted(j.get("templateLinks", []), key=lambda l: l.get("newId", ""))
+    return j
+
+
+def gen_set_doc(rng, w, depth):
+    tpls = [G.gen_policy(rng, w, True, "t%d" % k, depth) for k in range(rng.choice([0, 1, 2]))]
+    pols = [G.gen_policy(rng, w, False, "s%d" % k, depth) for k in range(rng.choice([0, 1, 2, 3]))]
+    links = []
+    for k in range(rng.choice([0, 1, 2, 3]) if tpls else 0):
+        t = rng.choice(tpls)
+        slots = {}
+        if "slot" in t["principal"]:
+            slots["?principal"] = cedar.uid_json(rng.choice(w.uids))
+        if "slot" in t["resource"]:
+            slots["?resource"] = cedar.uid_json(rng.choice(w.uids))
+        c = rng.random()
+        if c < 0.08 and slots:
+            slots.pop(rng.choice(sorted(slots)))                      # missing binding
+        elif c < 0.16:
+            slots[rng.choice(["?principal", "?resource"])] = cedar.uid_json(rng.choice(w.uids))   # possibly extra binding
+        elif c < 0.22:
+            slots = {k2: {"__entity": v} for k2, v in slots.items()}   # explicit escape
+        lid = "l%d" % k
+        if rng.random() < 0.06:
+            lid = rng.choice(["s0", "t0", "l0"])                       # id conflicts
+        links.append({"templateId": t["id"] if rng.random() > 0.05 else "nope", "newId": lid, "values": slots})
+    tp = {t["id"]: G.policy_est(t, rng) for t in tpls}
+    sp = {p["id"]: G.policy_est(p, rng) for p in pols}
+    if tpls and rng.random() < 0.05:
+        sp["t0"] = G.policy_est(G.gen_policy(rng, w, False, "t0", 1), rng)     # static id = template id
+    if tpls and rng.random() < 0.05:
+        sp["sx"] = tp[tpls[0]["id"]]                                           # template body among statics
+    if pols and rng.random() < 0.05:
+        tp["tx"] = sp[pols[0]["id"]]                                           # slot-free "template"
+    return {"templates": tp, "staticPolicies": sp, "templateLinks": links}
+
+
+def set_correspondence(rep, rng, harness, driver, stats, n_docs, n_mut, depth):
+    import sx as _sx
+    docs = []
+    w = None
+    for i in range(n_docs):
+        if i % 3 == 0:
+            w = gen.World(rng)
+        docs.append((G.tree(gen_set_doc(rng, w, depth)), "valid"))
+    pool = list(docs)
+    for _ in range(n_mut):
+        t, _k = rng.choice(pool)
+        kinds = []
+        for _m in range(rng.choice([1, 1, 2])):
+            t, kd = G.mutate(t, rng)
+            kinds.append(kd)
+        if t[0] == "obj":
+            docs.append((t, "+".join(kinds)))
+    texts = [G.tree_text(t) for t, _ in docs]
+    rres = fw.run_rust(harness, [{"cmd": "from_json", "kind": "set", "json_str": x} for x in texts])
+    mcmds = [[Sym("est_to_pset"), G.tree_sx(t)] for t, _ in docs]
+    mres = fw.run_model(driver, mcmds)
+    rt_idx = []
+    for i, ((t, kd), r, m) in enumerate(zip(docs, rres, mres)):
+        stats["corr_set"] += 1
+        acc = "accept" in r
+        h = stats["set_kinds"].setdefault(kd.split("+")[0], [0, 0])
+        h[0 if acc else 1] += 1
+        if acc:
+            want_t = sorted((_sx.dump(template_dsx(x)) for x in r["accept"]["templates"]))
+            want_p = sorted(_sx.dump([Str(p["id"]), [Sym("policy"), template_dsx(p["template"]),
+                                                    Sym("none") if p["static"] else [Sym("some"), Str(p["id"])],
+                                                    [[Sym(k), uid_dsx(u)] for k, u in p["env"]]]]) for p in r["accept"]["policies"])
+            ok = isinstance(m, list) and str(m[0]) == "ok"
+            if ok:
+                ps = m[1]
+                got_t = sorted(_sx.dump(x) for x in ps[1] if has_slot_sx(x))
+                got_p = sorted(_sx.dump([e[0], [e[1][0], e[1][1], e[1][2], sorted(e[1][3], key=lambda z: str(z[0]))]]) for e in ps[2])
+                ok = got_t == want_t and got_p == want_p
+            if ok and kd == "valid":
+                rt_idx.append(i)
+        else:
+            ok = "reject" in r and isinstance(m, list) and str(m[0]) == "err"
+        if not ok:
+            stats["violations"] += 1
+            rep.violation({"property": PROP, "kind": "model est_to_pset differs from PolicySet::from_json_str (%s)" % kd,
+                           "model_function": "EstSet.est_to_pset", "rust_entry": "cedar_policy::PolicySet::from_json_str",
+                           "json_str": texts[i], "rust": r, "model": _sx.dump(m)[:3000],
+                           "theorem_whose_transfer_is_lost": "c06_est_links"}, no_failing_input=True)
+    # to_json of the AST-only set vs the model's document of the built set
+    rres = fw.run_rust(harness, [{"cmd": "json_rt", "kind": "set", "set_json": json.loads(texts[i]), "requests": [], "entities": []} for i in rt_idx])
+    mres = fw.run_model(driver, [[Sym("set_rt"), G.tree_sx(docs[i][0])] for i in rt_idx])
+    for i, r, m in zip(rt_idx, rres, mres):
+        stats["corr_set_to_json"] += 1
+        if "ast_json" in r and isinstance(m, list) and str(m[0]) == "ok" and canon_set_json(sx_tree(m[1]), True) == canon_set_json(r["ast_json"]):
+            continue
+        stats["violations"] += 1
+        rep.violation({"property": PROP, "kind": "model pset_to_estset/estset_to_est differs from PolicySet::to_json (AST route)",
+                       "model_function": "EstSet.estset_to_est (pset_to_estset s)", "rust_entry": "PolicySet::from(ast).to_json()",
+                       "json_str": texts[i], "rust": r.get("ast_json", r), "model": _sx.dump(m)[:3000],
+                       "theorem_whose_transfer_is_lost": "c06_est_links"}, no_failing_input=True)
+    return mcmds[:6]
+
+
 # ------------------------------------------------------------------ oracle
 TOLERATED_ERRORS = ("exceeds maximum encodable depth",)
 
@@ -358,6 +465,8 @@ def run(rep, tier, seed):
     driver = fw.build_model_driver()
     stats.update({"corr_ast_to_est": 0, "corr_est_to_ast": 0, "mutation_kinds": {}})
     xc = correspondence(rep, rng, cases, harness, driver, stats, 2500 if quick else 40000)
+    stats.update({"corr_set": 0, "corr_set_to_json": 0, "set_kinds": {}})
+    xc += set_correspondence(rep, rng, harness, driver, stats, 300 if quick else 5000, 500 if quick else 8000, 3 if quick else 4)
     nx = fw.coq_crosscheck(xc, fw.run_model(driver, xc), PROP)
     ops = {}
     for c in cases:
@@ -372,13 +481,15 @@ def run(rep, tier, seed):
         "trusted_base": fw.TRUSTED_BASE, "theorems": details,
         "evaluations": len(cmds), "distinct_nontrivial": distinct,
         "rule": "distinct by hash of the whole harness command; every command performs at least one full conversion there and back on a generated policy/template/set with >= 0 conditions",
-        "traces_validated_against_impl": sum(stats["round_trips"].values()) + stats["corr_ast_to_est"] + stats["corr_est_to_ast"],
+        "traces_validated_against_impl": sum(stats["round_trips"].values()) + stats["corr_ast_to_est"] + stats["corr_est_to_ast"] + stats["corr_set"] + stats["corr_set_to_json"],
         "round_trips": stats["round_trips"], "rejected_inputs": stats["rejected"], "tolerated_errors": stats["tolerated"],
         "rejected_samples": stats.get("rejected_samples", []),
         "print_ast_differs": stats["print_ast_differs"], "routes_json_differ": stats.get("routes_json_differ", 0),
         "set_rust_eq_false_order_sensitive": stats.get("set_rust_eq_false", 0),
         "correspondence": {"template_to_est": stats["corr_ast_to_est"], "est_to_template": stats["corr_est_to_ast"],
-                           "mutation_kinds_[accepted,rejected]": stats["mutation_kinds"]},
+                           "mutation_kinds_[accepted,rejected]": stats["mutation_kinds"],
+                           "est_to_pset": stats["corr_set"], "set_to_json": stats["corr_set_to_json"],
+                           "set_doc_kinds_[accepted,rejected]": stats["set_kinds"]},
         "vm_compute_crosscheck_cases": nx,
         "operator_histogram": ops,
         "set_shapes": {str(k): sum(1 for s in sets if s["n"] == k) for k in sorted({s["n"] for s in sets})},
